@@ -340,3 +340,45 @@ Example C06_example_applies : forall s outs w s' r w',
   (forall b, heap w' b = heap w b) /\ live_count w' = live_count w /\ table_grows_null s s'.
 Proof. exact ex06_copy_atomic. Qed.
 
+
+(* ------------------------------------------------------------------------------------------ *)
+(* The order of the cleanup as the C source of this run has it (translator/effects.py,
+   gen/Gen_effects_load.v, Bridge_effects_load.v, HPlansLoad_proofs.v): the failure paths of the string
+   callbacks set creation_failed, leave the stack alone and free the payload block exactly once,
+   after the failed constructor; the error path of cbor_load releases the item of the top stack record
+   and THEN pops the record — and the heap model does the same, request for request. *)
+From Coq Require Import ZArith String List.
+From CB Require Import GenLeafTypes HPlans HPlansLoad HPlans_proofs HPlansLoad_proofs Bridge_effects_load.
+From CBGen Require Import Gen_effects_load.
+Import ListNotations.
+Local Open Scope string_scope.
+Local Open Scope list_scope.
+Local Open Scope N_scope.
+
+Theorem C06_code_string_cb_failure_followed :
+  forall (refuse : N -> N -> bool) (text : bool) (d : list N) (stk : list srec) w sub dst ty c,
+  wf w -> len stk < 2 ^ 64 -> sub < 2 ^ 64 -> len d < 2 ^ 64 -> (0 <= ty < 2 ^ 32)%Z -> (0 <= dst < 2 ^ 32)%Z ->
+  let ok0 := malloc_ok refuse (nreq w) (len d) in
+  let ok1 := malloc_ok refuse (nreq w + 1) SZ_ITEM in
+  let p := (if text then Gcbor_builder_string_callback else Gcbor_builder_byte_string_callback)
+             0%Z (Z.of_N (len stk)) (Z.of_N sub) dst ty (Z.of_N (len d)) ok0 ok1 c in
+  let ress := [if ok0 then Some (next w) else None; if ok1 then Some (next w + 1) else None] in
+  ok0 && ok1 = false ->
+  fieldZ "creation_failed" p = 1%Z /\
+  exists w',
+    string_cb refuse text d stk w = Ret (cf_ctx stk) w' /\
+    trace w' = rev (glue_trace ress ress (p_reqs p)) ++ trace w /\
+    heap_eq w w'.
+Proof. exact code_string_cb_failure_followed. Qed.
+Print Assumptions C06_code_string_cb_failure_followed.
+
+Theorem C06_code_unwind_followed :
+  forall code cf dr pos rd st se cf' sz' se' n (rc top : addr) (sub : N) (rest : list srec),
+  len ((rc, top, sub) :: rest) < 2 ^ 64 ->
+  let stk := (rc, top, sub) :: rest in
+  let p := Gcbor_load_loop1 code cf dr (Z.of_N pos) (Z.of_N rd) (Z.of_N (len stk)) st se cf' sz' se' n in
+  p_ret p = RLoop 1 /\
+  p_reqs p = [call_decref (PField (PField stackL "top") "item"); ReqCall "_cbor_stack_pop" [AP stackL]] /\
+  unwind stk = (decref top ;;; stack_pop (rc, top, sub) ;;; unwind rest).
+Proof. exact code_unwind_followed. Qed.
+Print Assumptions C06_code_unwind_followed.
